@@ -4,7 +4,8 @@ From Coq Require Import List String Bool ZArith.
 From Helm Require Import Common.Assoc Engine.Types Engine.Eff Engine.Ops Engine.Cluster Engine.Seq
                          Engine.DryRun Engine.Ownership Engine.OwnershipProofs Engine.OwnershipCalls
                          Engine.OwnershipConfine Engine.OwnershipStamped Engine.OwnershipLookup
-                         Engine.MatchDefs Engine.Stamp Engine.StampProofs Engine.StampWorld.
+                         Engine.MatchDefs Engine.Stamp Engine.StampProofs Engine.StampWorld
+                         Engine.OwnershipFrame Engine.OwnershipOnlyIf Engine.OwnershipNs.
 Import ListNotations.
 Local Open Scope string_scope.
 
@@ -345,6 +346,163 @@ Theorem C07_ledger_keys_confined :
          (ledger_keys (w_led w) ++ op_chart_keys (oc_op c))%list.
 Proof. exact ledger_keys_confined. Qed.
 Print Assumptions C07_ledger_keys_confined.
+
+(* ---- nothing outside the release is touched ---- *)
+
+(* every operation — any of the four, any flags (take-ownership, atomic fall-backs, cleanup,
+   hooks with delete policies), any world, any storage-fault / crash / cluster-fault plan: an
+   object at a key that is not the key of a manifest resource or hook of a revision stored at
+   operation start, nor of the operation's own chart, is afterwards exactly what it was before
+   (not created, not patched, not deleted) *)
+Theorem C07_outside_release_untouched :
+  forall (rn ns : string) (c : opcase) (w : world) (key : string),
+    ~ In key (flat_map (fun r => (map rkey (manifest r) ++ map (fun h => rkey (h_res h)) (hooks r))%list) (w_led w)
+              ++ match oc_op c with
+                 | OpInstall _ _ _ m h | OpUpgrade _ _ _ m h => (map rkey m ++ map (fun h => rkey (h_res h)) h)%list
+                 | OpRollback _ | OpUninstall _ => []
+                 end)%list ->
+    aget key (w_objs (fst (fst (run_store_op rn ns c w)))) = aget key (w_objs w).
+Proof. exact outside_release_untouched. Qed.
+Print Assumptions C07_outside_release_untouched.
+
+(* ---- the conflict error only for a real conflict ---- *)
+
+(* the converse of C07_refuse_before_mutation_*: install ends in the conflict error only if the
+   ownership GET of a manifest resource was rejected, or take-ownership is off and a manifest
+   resource exists — at its own key — un-owned; objects anywhere else are never a conflict *)
+Theorem C07_conflict_only_if_install :
+  forall (rn ns : string) (fl : flags) (cid vid : nat) (mani : list res) (hks : list hook)
+         (sf : sfaults) (cf : cfaults) (w : world),
+    snd (fst (run_store_op rn ns (mkOp (OpInstall fl cid vid mani hks) sf cf) w)) = OErr EConflict ->
+    (exists key, cf_k cf = Some (VGet, key) /\ In key (map rkey mani)) \/
+    (f_take_ownership fl = false /\
+     exists r, In r mani /\ exists live, aget (rkey r) (w_objs w) = Some live /\ owned_by rn ns live = false).
+Proof. exact install_conflict_only_if. Qed.
+Print Assumptions C07_conflict_only_if_install.
+
+Theorem C07_conflict_only_if_upgrade :
+  forall (rn ns : string) (fl : flags) (cid vid : nat) (mani : list res) (hks : list hook)
+         (sf : sfaults) (cf : cfaults) (w : world),
+    snd (fst (run_store_op rn ns (mkOp (OpUpgrade fl cid vid mani hks) sf cf) w)) = OErr EConflict ->
+    exists cur, upgrade_current (w_led w) = Some cur /\
+      ((exists key, cf_k cf = Some (VGet, key) /\
+                    In key (map rkey (filter (fun r => negb (in_keys (rkey r) (manifest cur))) mani))) \/
+       (f_take_ownership fl = false /\
+        exists r, In r (filter (fun r => negb (in_keys (rkey r) (manifest cur))) mani) /\
+                  exists live, aget (rkey r) (w_objs w) = Some live /\ owned_by rn ns live = false)).
+Proof. exact upgrade_conflict_only_if. Qed.
+Print Assumptions C07_conflict_only_if_upgrade.
+
+(* the look-up reads only the objects at the keys of its argument *)
+Theorem C07_lookup_ignores_other_keys :
+  forall (rn ns : string) (rs : list res) (k : kstate) (take : bool) (acc : list res) (key : string) (f : fields),
+    ~ In key (map rkey rs) ->
+    snd (k_existing rn ns (set_objs k (aset key f (objs k))) rs take acc) = snd (k_existing rn ns k rs take acc).
+Proof. exact k_existing_other_key. Qed.
+Print Assumptions C07_lookup_ignores_other_keys.
+
+(* ---- more than one namespace ---- *)
+
+(* a namespaced resource (metadata.namespace, "" = the release namespace dns) enters the model
+   under the key Kind/name in the release namespace and <namespace>/Kind/name elsewhere
+   ([nkey], the key of the simulated API server too).  The spelling is injective: same key iff
+   same (namespace, kind, name) *)
+Theorem C07_ns_key_injective :
+  forall (dns : string), no_slash dns = true ->
+  forall (r1 r2 : nres),
+    (no_slash (n_ns r1) = true /\ no_slash (n_kind r1) = true /\ no_slash (n_name r1) = true) ->
+    (no_slash (n_ns r2) = true /\ no_slash (n_kind r2) = true /\ no_slash (n_name r2) = true) ->
+    nkey dns r1 = nkey dns r2 ->
+    (eff_ns dns r1, n_kind r1, n_name r1) = (eff_ns dns r2, n_kind r2, n_name r2).
+Proof. exact nkey_injective. Qed.
+Print Assumptions C07_ns_key_injective.
+
+(* the ownership check is per (namespace, kind, name): a manifest resource of whatever
+   namespace that exists there un-owned makes the install end in the conflict error before any
+   mutation ... *)
+Theorem C07_ns_install_refused :
+  forall (dns rn : string) (fl : flags) (cid vid : nat) (nm : list nres) (hks : list hook)
+         (sf : sfaults) (cf : cfaults) (w : world) (r : nres) (live : fields),
+    f_take_ownership fl = false -> f_client_only fl = false ->
+    In r nm -> aget (nkey dns r) (w_objs w) = Some live -> owned_by rn dns live = false ->
+    (snd (fst (run_store_op rn dns (mkOp (OpInstall fl cid vid (map (flat_res dns) nm) hks) sf cf) w)) = OErr EConflict \/
+     (snd (fst (run_store_op rn dns (mkOp (OpInstall fl cid vid (map (flat_res dns) nm) hks) sf cf) w)) = OErr ENameInUse /\
+      f_dry_run fl = false /\
+      match max_rev_of (w_led w) with
+      | None => true
+      | Some last => f_replace fl && (status_eqb (st last) SUninstalled || status_eqb (st last) SFailed)
+      end = false)) /\
+    snd (run_store_op rn dns (mkOp (OpInstall fl cid vid (map (flat_res dns) nm) hks) sf cf) w) = [] /\
+    fst (fst (run_store_op rn dns (mkOp (OpInstall fl cid vid (map (flat_res dns) nm) hks) sf cf) w)) = w.
+Proof. exact ns_install_refused. Qed.
+Print Assumptions C07_ns_install_refused.
+
+(* ... and (no rejected GET) the conflict error means exactly that: some manifest resource
+   exists un-owned at ITS OWN (namespace, kind, name) *)
+Theorem C07_ns_conflict_only_own :
+  forall (dns rn : string) (fl : flags) (cid vid : nat) (nm : list nres) (hks : list hook)
+         (sf : sfaults) (cf : cfaults) (w : world),
+    (forall key, cf_k cf <> Some (VGet, key)) ->
+    snd (fst (run_store_op rn dns (mkOp (OpInstall fl cid vid (map (flat_res dns) nm) hks) sf cf) w)) = OErr EConflict ->
+    f_take_ownership fl = false /\
+    exists r live, In r nm /\ aget (nkey dns r) (w_objs w) = Some live /\ owned_by rn dns live = false.
+Proof. exact ns_install_conflict_only_own. Qed.
+Print Assumptions C07_ns_conflict_only_own.
+
+(* an object whose (namespace, kind, name) is that of no manifest resource, hook or stored
+   revision — e.g. the kind and name of a manifest resource in ANOTHER namespace, owned by
+   another release — is untouched by install and upgrade (any flags, take-ownership included) *)
+Theorem C07_ns_other_object_untouched :
+  forall (dns : string), no_slash dns = true ->
+  forall (rn : string) (install_not_upgrade : bool) (fl : flags) (cid vid : nat) (nm : list nres)
+         (hks : list hook) (sf : sfaults) (cf : cfaults) (w : world) (x : nres),
+    (no_slash (n_ns x) = true /\ no_slash (n_kind x) = true /\ no_slash (n_name x) = true) ->
+    Forall (fun r => no_slash (n_ns r) = true /\ no_slash (n_kind r) = true /\ no_slash (n_name r) = true) nm ->
+    (forall r, In r nm -> (eff_ns dns r, n_kind r, n_name r) <> (eff_ns dns x, n_kind x, n_name x)) ->
+    ~ In (nkey dns x) (map (fun h => rkey (h_res h)) hks) ->
+    ~ In (nkey dns x) (flat_map (fun r => (map rkey (manifest r) ++ map (fun h => rkey (h_res h)) (hooks r))%list) (w_led w)) ->
+    let o := if install_not_upgrade then OpInstall fl cid vid (map (flat_res dns) nm) hks
+             else OpUpgrade fl cid vid (map (flat_res dns) nm) hks in
+    aget (nkey dns x) (w_objs (fst (fst (run_store_op rn dns (mkOp o sf cf) w)))) = aget (nkey dns x) (w_objs w).
+Proof. exact ns_other_object_untouched. Qed.
+Print Assumptions C07_ns_other_object_untouched.
+
+(* ... and it plays no part in the pre-flight check *)
+Theorem C07_ns_other_object_not_looked_up :
+  forall (dns : string), no_slash dns = true ->
+  forall (rn : string) (nm : list nres) (k : kstate) (take : bool) (x : nres) (fx : fields),
+    (no_slash (n_ns x) = true /\ no_slash (n_kind x) = true /\ no_slash (n_name x) = true) ->
+    Forall (fun r => no_slash (n_ns r) = true /\ no_slash (n_kind r) = true /\ no_slash (n_name r) = true) nm ->
+    (forall r, In r nm -> (eff_ns dns r, n_kind r, n_name r) <> (eff_ns dns x, n_kind x, n_name x)) ->
+    snd (k_existing rn dns (set_objs k (aset (nkey dns x) fx (objs k))) (map (flat_res dns) nm) take []) =
+    snd (k_existing rn dns k (map (flat_res dns) nm) take []).
+Proof. exact ns_other_object_not_looked_up. Qed.
+Print Assumptions C07_ns_other_object_not_looked_up.
+
+(* non-vacuity of the namespace theorems: the same kind and name in the release namespace, in
+   "other" (both in the manifest) and in "third" (another release's object) *)
+Example C07_ns_example :
+  let a0 := mkNRes "" "ConfigMap" "a" [("d:k", "v")] in
+  let a1 := mkNRes "other" "ConfigMap" "a" [("d:k", "v")] in
+  let a2 := mkNRes "third" "ConfigMap" "a" [] in
+  let foreign := [("d:k", "live"); (managed_by_key, "Helm"); (rel_name_key, "other-release"); (rel_ns_key, "third")] in
+  let fl t := mkFlags false false false false 0 false false false t 0 in
+  let inst t w := run_store_op "rel" "default" (mkOp (OpInstall (fl t) 1 1 (map (flat_res "default") [a0; a1]) []) (mkSF None None) (mkCF None None false)) w in
+  let w3 := mkW [] [(nkey "default" a2, foreign)] in
+  let w13 := mkW [] [(nkey "default" a1, foreign); (nkey "default" a2, foreign)] in
+  map (nkey "default") [a0; a1; a2] = ["ConfigMap/a"; "other/ConfigMap/a"; "third/ConfigMap/a"] /\
+  snd (fst (inst false w3)) = OOk /\
+  aget "third/ConfigMap/a" (w_objs (fst (fst (inst false w3)))) = Some foreign /\
+  snd (fst (inst false w13)) = OErr EConflict /\ snd (inst false w13) = [] /\
+  snd (fst (inst true w13)) = OOk /\
+  aget "third/ConfigMap/a" (w_objs (fst (fst (inst true w13)))) = Some foreign /\
+  (match aget "other/ConfigMap/a" (w_objs (fst (fst (inst true w13)))) with
+   | Some f => owned_by "rel" "default" f | None => false end) = true /\
+  trace_deletes (snd (run_store_op "rel" "default"
+                        (mkOp (OpUpgrade (fl false) 2 1 (map (flat_res "default") [a0]) []) (mkSF None None) (mkCF None None false))
+                        (fst (fst (inst false w3))))) = ["other/ConfigMap/a"].
+Proof. exact ns_example. Qed.
+Print Assumptions C07_ns_example.
 
 (* ---- non-vacuity ---- *)
 
